@@ -59,6 +59,8 @@ pub enum PG {
     Onceo(Vec<PG>),
     Dfs(Vec<PG>),
     Anyo(Box<PG>),
+    /// `loop { c1, c2, ... }`: the clauses (each a conjunction) are conjoined and tried unboundedly often
+    Loop(Vec<Vec<PG>>),
     Always,
     Never,
     Call(String, Vec<T>),
@@ -145,6 +147,10 @@ impl PG {
                 out.push_str("anyo ");
                 g.toks(out)
             }
+            PG::Loop(cs) => {
+                out.push_str("loop ");
+                toks_clauses(cs, out)
+            }
             PG::Always => out.push_str("always "),
             PG::Never => out.push_str("never "),
             PG::Call(r, args) => {
@@ -216,6 +222,7 @@ impl PG {
             "dfs" => PG::Dfs(goals(t)),
             "fresh" => PG::Fresh(Box::new(PG::parse(t))),
             "anyo" => PG::Anyo(Box::new(PG::parse(t))),
+            "loop" => PG::Loop(clauses(t)),
             "always" => PG::Always,
             "never" => PG::Never,
             "call" => {
@@ -318,6 +325,11 @@ pub fn build<K: Kind>(g: &PG, vars: &mut Vars) -> K {
         PG::Anyo(b) => {
             let g = build::<Goal<DU, DE>>(b, vars);
             K::from_bfs(proto_vulcan::operator::anyo(OperatorParam::new(&[&[g]])))
+        }
+        PG::Loop(cs) => {
+            let v: Vec<Vec<Goal<DU, DE>>> = cs.iter().map(|c| c.iter().map(|x| build::<Goal<DU, DE>>(x, vars)).collect()).collect();
+            let r: Vec<&[Goal<DU, DE>]> = v.iter().map(|c| &c[..]).collect();
+            K::from_bfs(proto_vulcan::operator::anyo(OperatorParam::new(&r)))
         }
         PG::Always => K::from_bfs(rel::always()),
         PG::Never => K::from_bfs(rel::never()),
@@ -571,6 +583,7 @@ pub fn run_raw(p: &Prog) -> RunOut {
 
 /// Runs the query on the real engine.
 pub fn run_prog(p: &Prog) -> RunOut {
+    crate::mark(&p.line());
     if p.raw {
         return run_raw(p);
     }
